@@ -1,6 +1,7 @@
 import Driver.Server
 import Driver.Misc
 import Driver.Life
+import Driver.Net
 /-
   Line-protocol driver: one case per input line, one output line `<model> ## <spec>` per case.
 -/
@@ -16,6 +17,7 @@ def runCase (line : String) : String :=
   | some "flt" => let (m, s) := runFlt tok; s!"{m} ## {s}"
   | some "fltm" => let (m, s) := runFltm tok; s!"{m} ## {s}"
   | some "life" => let (m, s) := runLife tok; s!"{m} ## {s}"
+  | some "net" => let (m, s) := runNet tok; s!"{m} ## {s}"
   | some "rdr" => let (m, s) := runRdr tok; s!"{m} ## {s}"
   | some "srv" => let (m, s) := runSrv tok; s!"{m} ## {s}"
   | some other => s!"unknown-suite {other} ## unknown-suite {other}"
